@@ -140,6 +140,8 @@ def strategy():
         'data': data_strategy(), 'model': model_strategy(), 'probs': probs_strategy(),
         'xq': st.lists(st.floats(-0.2, 1.2), min_size=1, max_size=15),       # positions relative to the data range
         'far': st.floats(2.0, 1e6), 'p1': st.floats(1e-3, 0.999), 'p2': st.floats(1e-3, 0.999), 'seed': S.SEEDS,
+        # earlier life of the object: fitted on a constant (0 is falsy) or on other data before the fit under test
+        'prefit': st.one_of(st.none(), st.none(), st.sampled_from(['const:0.0', 'const:3.5', 'const:-2.0', 'data'])),
     })
 
 
@@ -199,6 +201,11 @@ def oracle(case):
     spec = case['model']
     np.random.seed(case['seed'] % (2 ** 32))
     m = build_model(spec, data)
+    pre = case.get('prefit')
+    if pre:
+        before = np.full(6, float(pre.split(':')[1])) if pre.startswith('const:') else np.random.RandomState(case['seed']).normal(size=30) * 3.0 - 40.0
+        call(m.fit, before, allow=(Exception,), what='fit (earlier data)')
+        call(lambda: (m.cdf(before[:2]), m.sample(2)), allow=(Exception,), what='use of the earlier fit')
     kind, err = call(m.fit, data.copy(), allow=(Exception,), what='fit')
     if kind == 'exc':
         return {'nontrivial': False, 'classes': ['fit-raised:%s:%s' % (spec['cls'], type(err).__name__)]}
@@ -209,7 +216,7 @@ def oracle(case):
     lo, hi = float(data.min()), float(data.max())
     rng = hi - lo
     groups = 0
-    cls = ['model:' + spec['cls'], 'selected:' + name, 'data:' + case['data']['shape']]
+    cls = ['model:' + spec['cls'], 'selected:' + name, 'data:' + case['data']['shape'], 'prefit:' + str(pre).split(':')[0]]
 
     # ---- 1. CDF: monotone, range, limits ----
     xs = np.sort(np.concatenate((lo + np.array(case['xq']) * rng, [lo - case['far'] * rng, hi + case['far'] * rng],
@@ -306,7 +313,7 @@ def constant_strategy():
     return st.fixed_dictionaries({
         'value': st.one_of(st.floats(-1e6, 1e6), st.sampled_from([0.0, -0.0, 1.0, 1e-300])), 'n': st.integers(1, 200),
         'model': model_strategy(), 'probs': probs_strategy(), 'offsets': st.lists(st.floats(-10, 10), min_size=1, max_size=10),
-        'nsamp': st.integers(1, 50), 'seed': S.SEEDS,
+        'nsamp': st.integers(1, 50), 'seed': S.SEEDS, 'prefit': st.sampled_from([None, None, 'data', 'const']),
     })
 
 
@@ -315,6 +322,10 @@ def oracle_constant(case):
     data = np.full(case['n'], c)
     spec = case['model']
     m = build_model(spec, data, random_state=case['seed'])
+    if case.get('prefit'):
+        before = np.random.RandomState(case['seed']).normal(size=30) * 2.0 + c + 1.0 if case['prefit'] == 'data' else np.full(4, c + 1.0)
+        call(m.fit, before, allow=(Exception,), what='fit (earlier data)')
+        call(lambda: (m.cdf(before[:2]), m.sample(2)), allow=(Exception,), what='use of the earlier fit')
     value(m.fit, data.copy(), what='%s.fit(constant)' % spec['cls'])
     what = '%s fitted on the constant %r' % (spec['cls'], c)
     span = max(abs(c), 1.0)
